@@ -412,3 +412,103 @@ func VerifC02LockPage() {
 	rt.Check(pos1.PostApplyChecksum == spec && x.trailer.PostApplyChecksum == spec, "C04: checksum = XOR over all pages except the lock page")
 	rt.Reach("c02.lockpage")
 }
+
+// VerifC02Create: the first transaction of a database created from nothing
+// (Store.CreateDB, empty file, position 0): commit, rollback before any page
+// reached the file, and rollback after a cache spill wrote pages (SQLite then
+// truncates the file back to zero bytes before finalising the journal). After
+// a rollback the next transaction is the first one again.
+func VerifC02Create() {
+	ctx := context.Background()
+	w := verifNewStore(true)
+	db, dbf, err := w.store.CreateDB("db")
+	rt.Check(err == nil && db != nil && dbf != nil, "CreateDB on a primary")
+	w.db = db
+	pos0 := db.Pos()
+	rt.Check(pos0.TXID == 0 && db.PageN() == 0, "a new database starts at position 0 with no pages")
+	scenario := rt.Choose("scenario", 3) // 0 commit, 1 rollback before spill, 2 rollback after spill
+	mode := rt.Choose("journal.mode", 3)
+	nonce := rt.U32("nonce")
+
+	// one first transaction: journal, optional page writes, optional rollback truncate, finalisation
+	tx := func(tag string, n int, write, rollback bool) [][]byte {
+		jf, err := db.OpenJournal(ctx)
+		if err != nil {
+			jf, err = db.CreateJournal()
+		}
+		rt.Check(err == nil, "journal opened")
+		rt.Check(db.WriteJournalAt(ctx, jf, verifJournalHeader(0, nonce, 0), 0, 1) == nil, "journal header (original size 0, no records)")
+		img := make([][]byte, n)
+		if write {
+			for p := 1; p <= n; p++ {
+				data := rt.Bytes(tag, verifP)
+				if p == 1 {
+					verifHeaderPage(data, uint32(n), false)
+				}
+				rt.Check(db.WriteDatabaseAt(ctx, dbf, data, int64(p-1)*verifP, 1) == nil, "page write")
+				img[p-1] = data
+			}
+		}
+		if write && rollback {
+			// playback: no records to restore; the file is cut back to its original size (0)
+			rt.Check(db.TruncateDatabase(ctx, 0) == nil, "rollback truncates the database file back to zero bytes")
+		}
+		var ferr error
+		switch mode {
+		case 0:
+			ferr = db.RemoveJournal(ctx)
+		case 1:
+			ferr = db.TruncateJournal(ctx)
+		case 2:
+			ferr = db.WriteJournalAt(ctx, jf, make([]byte, SQLITE_JOURNAL_HEADER_SIZE), 0, 1)
+		}
+		rt.Check(ferr == nil, "journal finalisation succeeds")
+		rt.Check(len(w.exits) == 0, "no fatal exit")
+		return img
+	}
+	committed := func(img [][]byte) {
+		pos1 := db.Pos()
+		cur := w.verifReadImage()
+		n := len(img)
+		rt.Check(pos1.TXID == 1, "first commit: position 1")
+		x, derr := verifDecodeLTX(db.LTXPath(1, 1))
+		rt.Check(derr == nil && x.hdr.MinTXID == 1 && x.hdr.MaxTXID == 1 && x.hdr.PreApplyChecksum == 0 && x.hdr.Commit == uint32(n), "first transaction file: 1-1, no pre-checksum, commit size")
+		rt.Check(len(x.pgnos) == n, "first transaction file holds every page")
+		for i := range x.pages {
+			rt.Check(x.pgnos[i] == uint32(i+1) && verifSamePage(x.pages[i], img[i]), "first transaction file page bytes")
+		}
+		rt.Check(len(cur) == n, "image size")
+		spec := verifSpecChecksum(img)
+		rt.Check(pos1.PostApplyChecksum == spec && x.trailer.PostApplyChecksum == spec, "C04: checksum of the first position equals the from-scratch checksum")
+		rt.Check(db.PageN() == uint32(n), "page count")
+	}
+
+	n := 1 + rt.Choose("pages", 2)
+	if scenario == 0 {
+		committed(tx("new", n, true, false))
+		rt.Reach("c02.create.commit")
+		return
+	}
+	tx("rolledback", n, scenario == 2, true)
+	rt.Check(db.Pos() == pos0, "a rolled-back first transaction leaves the position unchanged")
+	rt.Check(len(verifLTXNames(db)) == 0, "a rolled-back first transaction creates no transaction file")
+	rt.Check(len(w.verifReadImage()) == 0 && db.PageN() == 0, "a rolled-back first transaction leaves the database empty")
+	rt.Check(len(db.dirtyPageSet) == 0, "dirty page set cleared")
+	// the journal is invalidated in the requested way, so SQLite does not find a hot journal
+	jb, jerr := os.ReadFile(db.JournalPath())
+	switch mode {
+	case 0:
+		rt.Check(os.IsNotExist(jerr), "DELETE: journal removed")
+	case 1:
+		rt.Check(jerr == nil && len(jb) == 0, "TRUNCATE: journal empty")
+	case 2:
+		rt.Check(jerr == nil && len(jb) >= 28 && isByteSliceZero(jb[:28]), "PERSIST: journal header zeroed")
+	}
+	// the next transaction is the first one again
+	committed(tx("second", 1+rt.Choose("pages2", 2), true, false))
+	if scenario == 1 {
+		rt.Reach("c02.create.rollback")
+	} else {
+		rt.Reach("c02.create.rollback.spilled")
+	}
+}
